@@ -270,3 +270,8 @@ def percent_build(fmt, arg):
         return fmt % arg
     except TypeError:
         return fmt
+
+
+def str_of(x):
+    """str(x) for a symbolic number: decimal rendering (lazy atom once C09 needs it)."""
+    raise Unsupported("str() of a symbolic number")
